@@ -70,7 +70,7 @@ SOFT_RULES = {
     "PARENT-WALK", "KIND-BRANCH", "SORT-GUARD", "EXH-5", "LIMIT", "REGEX-FULL", "RANGE-GUARD", "EXIST-CMP", "DATAID-DEF", "ITER-NORET",
     "FRAME", "STALE-ALIAS",
     # rules that were derived from individual seeded changes and look at one construct each
-    "UNIQ-SCOPE", "SLOT-NEW", "REC-FWD", "MOVE-ORDER", "ALIAS-ARG", "PRED-NORM", "GUARD-TREE", "DATA-IS", "CACHE-INVAL", "RET-USED", "ENUM-POS",
+    "UNIQ-SCOPE", "SLOT-NEW", "REC-FWD", "MOVE-ORDER", "ALIAS-ARG", "PRED-NORM", "GUARD-TREE", "DATA-IS", "CACHE-INVAL", "RET-USED", "ENUM-POS", "COPY-ORDER", "SUPER-KIND", "PRED-TEST", "MEMO-KEY",
 }
 
 
@@ -269,6 +269,11 @@ def run_rule(ctx: Ctx, rd: RuleDef) -> List[Ob]:
             return [ctx.tri(rd.name, rd.props, "package", f"{rd.name}: " + rd.doc.split(";")[0][:120], None, None,
                             f"could not analyse this shape ({type(e).__name__}: {e} at {where})")]
         raise AnalysisError(f"rule {rd.name} could not analyse this shape ({type(e).__name__}: {e} at {where})") from e
+    # an obligation is only ever looked at by the checks of the properties its rule is registered for: one that carries
+    # another property would silently never be decided for it
+    stray = sorted({p_ for o in obs for p_ in o.props} - set(rd.props))
+    if stray:
+        raise AnalysisError(f"rule {rd.name} emits obligations for {stray} but is not registered for them (checker defect)")
     n = sum(1 for o in obs if not o.note or o.undecided)
     if n < rd.floor and rd.soft:
         if not any(o.undecided for o in obs):
